@@ -126,6 +126,42 @@ theorem no_new_conflict (sync : Bool) (bus : Bus) (x : Nat) :
     have h2 := responsive_writeAddr bus x (one_prog hp) (not_found_silent hf)
     omega
 
+/-- One procedure of a history (check, restart, read or the address write) never creates a conflict either. -/
+theorem op_no_new_conflict (sync : Bool) (bus : Bus) (o : Op) (x : Nat) :
+    responsive (runOp sync bus o).bus x ≤ max (responsive bus x) 1 := by
+  cases o with
+  | check y => simp only [runOp]; omega
+  | restartDev y =>
+    simp only [runOp, restartProc]
+    have := responsive_restartAt bus y x
+    split
+    · simp only; omega
+    · simp only; omega
+  | read r => simp only [runOp]; omega
+  | write => exact no_new_conflict sync bus x
+
+/-- Over ANY history of procedures run one after the other on the same bus (earlier address checks, restarts, reads
+and writes, whatever their outcome), no address ends up with more answering/refusing devices than it had at the start,
+or one. -/
+theorem history_no_new_conflict (sync : Bool) (ops : List Op) : ∀ (bus : Bus) (x : Nat),
+    responsive (histBus sync bus ops) x ≤ max (responsive bus x) 1 := by
+  induction ops with
+  | nil => intro bus x; simp only [histBus]; omega
+  | cons o os ih =>
+    intro bus x
+    simp only [histBus]
+    have h1 := ih (runOp sync bus o).bus x
+    have h2 := op_no_new_conflict sync bus o x
+    omega
+
+/-- … and every address write inside a history is as safe as a single one: it sees the bus the earlier
+procedures left, nothing else. -/
+theorem history_write_only_if_safe (sync : Bool) (bus : Bus) (pre : List Op) (a : Nat)
+    (h : Tel.bWrite a ∈ (runOp sync (histBus sync bus pre) .write).tels) :
+    a = target ∧ ((histBus sync bus pre).filter (·.prog)).length = 1 ∧
+      ∀ d ∈ histBus sync bus pre, d.addr = target → d.beh = .silent :=
+  write_only_if_safe sync (histBus sync bus pre) a h
+
 /-! ### (3) what is restarted -/
 
 /-- A_Restart is only ever sent to the target address. -/
@@ -266,6 +302,7 @@ example : progAddrs [⟨0, true, .answers⟩, ⟨1, false, .answers⟩] = [targe
     0 < countAt [⟨0, true, .answers⟩, ⟨1, false, .answers⟩] target .answers := by decide
 example : serialRead [⟨1, 2, true, true⟩, ⟨0, 1, false, true⟩] 1 = some 0 := by decide
 example : (serialWrite [⟨1, 2, true, true⟩, ⟨1, 1, false, false⟩] 1 0).1 = .err := by decide
+example : (histBus false [⟨0, true, .silent⟩, ⟨1, true, .refuses⟩] [.check 1, .write]) = [⟨0, true, .silent⟩, ⟨1, true, .refuses⟩] := by decide
 example : authorize2 3 1 3 = (1, 2) ∧ authorize2 1 3 1 = (1, 3) := by decide
 
 end XknxVerif.Props.C44
